@@ -1,8 +1,6 @@
 package isobmff
 
 import (
-	"fmt"
-
 	"github.com/evanoberholster/imagemeta/exif2/ifds"
 	"github.com/evanoberholster/imagemeta/imagetype"
 	"github.com/evanoberholster/imagemeta/meta"
@@ -13,9 +11,10 @@ import (
 func (r *Reader) ReadMetadata() (err error) {
 	b, err := r.readBox()
 	if err != nil {
-		buf, err := r.br.Peek(128)
-		fmt.Println(buf, err, len(buf))
-		fmt.Println(string(buf))
+		if logLevelDebug() {
+			buf, _ := r.br.Peek(128)
+			logDebug().Err(err).Bytes("next", buf).Msg("ReadMetadata")
+		}
 		return errors.Wrapf(err, "ReadMetadata")
 	}
 	switch b.boxType {
